@@ -121,7 +121,7 @@ CLAIMS = {
             "note": TIE + FLOATS},
     "C12": {"text": "Theorems over the registry of all 24 filter models + wrappers (any nesting): construct from configuration c, feed ANY history, reset: the result IS c.init (reset_after_history), via reset = init(config) (reset_eq_init) and: no filter call ever changes the configuration (config_filter, config_run; for the median / Hampel: the number of ring slots, step_length); configuration unchanged by reset (config_reset); hence identical response to every later input (run_reset_eq_fresh). Correspondence: every resettable filter, reset after random histories, compared with the model and with a freshly constructed real instance fed the same inputs.",
             "note": TIE + "The theorem is structural (the model's reset is transcribed from each impl Reset); whether the code's reset forgets something is decided by the correspondence and by the real reset-vs-fresh differential."},
-    "C13": {"text": "Theorems over ordered fields, gains in [0,1], all lengths: EMA and exponential-median outputs stay in any interval containing the samples (ema_hull, emed_hull), constants reproduced (ema_const). Recurrences are executable specifications checked against the implementation (exact rationals).",
+    "C13": {"text": "Theorems over ordered fields, gains in [0,1], all lengths: EMA and exponential-median outputs stay in any interval containing the samples (ema_hull, emed_hull), constants reproduced (ema_const); at registry level ema_registry_hull / emedian_registry_hull, and the filters' runs ARE the recurrences y[n] = y[n-1] + w(x[n] - y[n-1]) (ema_registry_correct) and pre-average -> clamp -> mid-gain step of the exponential median (emedian_registry_correct, Spec.emedRec). The recurrences are also executable specification clauses evaluated on every output of the implementation (exact rationals).",
             "note": TIE + FLOATS},
     "C14": {"text": "Theorems over commutative rings: alpha-beta run is linear in the input (ab_linear: superposition with arbitrary scalars), constants reproduced exactly (ab_const). Recurrence is an executable specification checked against the implementation.",
             "note": TIE + FLOATS},
